@@ -43,9 +43,14 @@ def tabulate():
         row = []
         for t in ats:
             for g in gs:
-                tok = Atom(e, atype=t, geom=g).get_mol2_type()
+                try:
+                    tok = Atom(e, atype=t, geom=g).get_mol2_type()
+                except Exception as ex:          # a writer that raises: recorded as a token no reader accepts
+                    tok = "<raised " + type(ex).__name__ + ">"
                 if not isinstance(tok, str):
-                    tok = "<non-str:%r>" % (tok,)
+                    tok = "<non-str %s>" % type(tok).__name__
+                if not all(32 <= ord(c) < 127 for c in tok):
+                    tok = "<non-ascii " + tok.encode("ascii", "backslashreplace").decode() + ">"
                 if tok not in tindex:
                     tindex[tok] = len(tokens)
                     tokens.append(tok)
@@ -69,7 +74,12 @@ def tabulate():
         btokens.append(k)
     bget = []
     for b in bts:
-        tok = Bond(Atom(), Atom(), btype=b).get_mol2_type()
+        try:
+            tok = Bond(Atom(), Atom(), btype=b).get_mol2_type()
+        except Exception as ex:
+            tok = "<raised " + type(ex).__name__ + ">"
+        if not isinstance(tok, str) or not all(32 <= ord(c) < 127 for c in tok):
+            tok = "<odd %s>" % type(tok).__name__
         if tok not in btindex:
             btindex[tok] = len(btokens)
             btokens.append(tok)
@@ -672,8 +682,10 @@ def run(ctx, rep):
                     "numpy array assignment is not"]
     rep.assumptions += ["labels are blank-free, names are one line and survive str.strip() (the property's side conditions)",
                         "coordinates / charges are finite doubles; an ensemble has at least one conformer (recorded finding)"]
+    known = {k["signature"] for k in vlib.load_known() if k.get("property") == "C07" and k.get("status") == "known"}
     T = tabulate()
-    vlib.write_if_changed(GEN, gen_types(T))
+    with vlib.CoqLock():
+        vlib.write_if_changed(GEN, gen_types(T))
     ne, nt, ng = len(T["els"]), len(T["ats"]), len(T["gs"])
     for e in range(ne):
         for p in range(nt * ng):
@@ -688,11 +700,11 @@ def run(ctx, rep):
     found = False
     if not ok:
         for sig, what, rp in itertools.chain(table_search(T), sybyl_search(T)):
-            found = True
+            found = found or sig not in known
             rep.violate(sig, what, rp)
 
     # ---- tie H
-    n_cases = 3000 if ctx.thorough else 600
+    n_cases = 6000 if ctx.thorough else 600
     descs = gen_cases(ctx, T, n_cases)
     terms, kept = [], []
     for d in descs:
@@ -712,7 +724,7 @@ def run(ctx, rep):
                         if v == 0 and math.copysign(1, v) < 0:
                             rep.count("coord:minus-zero")
         for sig, what in vs:
-            found = True
+            found = found or sig not in known     # a recorded finding does not explain a broken obligation
             rep.violate(sig, what, {"kind": "case", "desc": d})
         if text is not None:
             t, notes = case_term(T, d, text, back)
@@ -729,6 +741,14 @@ def run(ctx, rep):
                 used["b"].add(b[2])
     rep.extra["coverage_text_cases"] = {"elements": len(used["e"]), "atom_types": len(used["t"]), "geometries": len(used["g"]),
                                         "bond_types": len(used["b"])}
+    # the model's whitespace predicate against CPython's (str.split / str.strip use the same test as str.isspace)
+    ws = [c for c in range(0x110000) if chr(c).isspace()]
+    rep.case(key="pyws-table")
+    if ws and ws[-1] >= 12289:
+        rep.violate("broken:pyws", f"CPython treats U+{ws[-1]:04X} as whitespace, the model (Common/StrSplit.v pyws) does not",
+                    {"obligation": "pyws"}, no_input=True)
+    terms.append("(CWs [" + "; ".join(str(c) for c in ws if c < 12289) + "])")
+    kept.append({"kind": "pyws"})
     if ok:
         bad = vlib.run_shards(ctx, rep, "c07", HEADER, "check_case", terms, shard=60, case_type="case")
         if bad is None:
@@ -738,9 +758,9 @@ def run(ctx, rep):
             # the oracle already judged every case; widen around the mismatching ones before giving up
             hit = found
             for i in bad[:20]:
-                for d2 in neighbourhood(ctx, kept[i]):
+                for d2 in ([] if kept[i]["kind"] == "pyws" else neighbourhood(ctx, kept[i])):
                     for sig, what in judge(T, d2)[0]:
-                        hit = True
+                        hit = hit or sig not in known
                         rep.violate(sig, what, {"kind": "case", "desc": d2})
             vlib.broken_obligation(rep, "corr_c07", f"{len(bad)} case(s) where model and molli disagree on the written text or the "
                                    f"read-back fields, first: {json.dumps(kept[bad[0]])[:1500]}", hit)
